@@ -258,6 +258,7 @@ func cmdCheck(repo, root string, args []string) int {
 	type failure struct {
 		name, status, text, pos, fn, detail string
 		known                               *KnownFinding
+		obl                                 *Obligation
 	}
 	var fails []failure
 	discharged, trivial := 0, 0
@@ -288,6 +289,7 @@ func cmdCheck(repo, root string, args []string) int {
 		for _, o := range g.Instances {
 			if o.Result != "unsat" && o.Result != "trivial" {
 				f.detail = fmt.Sprintf("path %d: %s\n%s", o.Path, o.Result, o.Model)
+				f.obl = o
 				break
 			}
 		}
@@ -342,6 +344,19 @@ func cmdCheck(repo, root string, args []string) int {
 			continue
 		}
 		violations++
+		if f.obl != nil && f.obl.Result == "sat" && f.obl.Replay != nil {
+			// ground counterexample: replay it on the real code
+			if confirmed, rec := replayModel(repo, root, f.obl); confirmed {
+				rec["property"], rec["obligation"], rec["clause"], rec["at"] = prop, f.name, f.text, f.pos
+				rec["rerun"] = "/verif/check " + prop + " quick"
+				rp := filepath.Join(root, "evidence", "replay", prop+"-"+sanitize(f.name)+".json")
+				writeJSON(rp, rec)
+				fmt.Printf("VIOLATION property=%s replay=%s obligation=%q input: %v\n", prop, rp, f.name, rec["input"])
+				continue
+			} else if rec["note"] != nil {
+				f.detail += "\nreplay: " + fmt.Sprint(rec["note"])
+			}
+		}
 		rp := writeReplay(root, prop, f.name, f.status, f.text, f.pos, f.detail)
 		fmt.Printf("VIOLATION property=%s replay=%s obligation=%q status=%s no-failing-input-found\n", prop, rp, f.name, f.status)
 	}
